@@ -6,7 +6,7 @@
    supplies it, computed with the sha2 crate); theorems quantify over any 32-byte digest. *)
 From Coq Require Import List NArith Bool.
 From V.gen Require Consts.
-From V.common Require Import Wire Varint.
+From V.common Require Import Wire Varint Protobuf Sha256.
 Import ListNotations.
 Open Scope N_scope.
 
@@ -369,3 +369,144 @@ Definition pid_cmp (p q : pid) : comparison :=
           end
   | c => c
   end.
+
+(* ====================================================================================== *)
+(* Round 3: the key message decoder and key admission (RemotePublicKey::from_protobuf_     *)
+(* encoding) on top of the prost wire model of common/Protobuf.v, replacing the decoder     *)
+(* oracle; exact description of the accepted-but-not-canonical inputs; error variants.      *)
+(* ====================================================================================== *)
+
+(* keys.proto:  enum KeyType { RSA = 0; Ed25519 = 1; Secp256k1 = 2; ECDSA = 3; }
+                message PublicKey { required KeyType Type = 1; required bytes Data = 2; }
+   prost-derive: `#[prost(enumeration = "KeyType", required, tag = "1")] type: i32`,
+                 `#[prost(bytes = "vec", required, tag = "2")] data: Vec<u8>`.
+   The enum numbers are read from src/schema/keys.proto at check time. *)
+Definition KT_RSA : N := Consts.C18_KEY_TYPE_RSA.
+Definition KT_ED25519 : N := Consts.C18_KEY_TYPE_ED25519.
+Definition KT_SECP256K1 : N := Consts.C18_KEY_TYPE_SECP256K1.
+Definition KT_ECDSA : N := Consts.C18_KEY_TYPE_ECDSA.
+Definition key_types : list N := [KT_RSA; KT_ED25519; KT_SECP256K1; KT_ECDSA].
+
+(* the decoded message; `k_type` is the i32 kept as its two's complement in [0, 2^32) *)
+Record keymsg := mkKeyMsg { k_type : N; k_data : list N }.
+
+(* the generated `merge_field`: tag 1 = int32::merge (wire type must be Varint, `as i32`),
+   tag 2 = bytes::merge (wire type must be LengthDelimited, replaces the value), any other tag is
+   skipped; a known tag with another wire type is an error. Last occurrence wins; `required` is
+   not enforced by prost (absent fields keep the default: type 0, empty data). *)
+Fixpoint fold_keymsg (fs : list field) (acc : keymsg) : option keymsg :=
+  match fs with
+  | [] => Some acc
+  | (t, v) :: rest =>
+      if t =? 1 then
+        match v with
+        | WVarint n => fold_keymsg rest (mkKeyMsg (to_u32 n) (k_data acc))
+        | _ => None
+        end
+      else if t =? 2 then
+        match v with
+        | WLen b => fold_keymsg rest (mkKeyMsg (k_type acc) b)
+        | _ => None
+        end
+      else fold_keymsg rest acc
+  end.
+
+(* keys_proto::PublicKey::decode *)
+Definition decode_keymsg (b : list N) : option keymsg :=
+  match pb_parse b with
+  | Ok fs => fold_keymsg fs (mkKeyMsg 0 [])
+  | _ => None
+  end.
+
+(* keys_proto::PublicKey::encode_to_vec: both fields are always written (required), in tag order;
+   the i32 is sign-extended to 64 bits before it is written as a varint *)
+Definition encode_keymsg (m : keymsg) : list N :=
+  [8] ++ encode (i32_to_u64 (k_type m)) ++ [18] ++ encode (len (k_data m)) ++ k_data m.
+
+(* The admission table of `impl TryFrom<keys_proto::PublicKey> for RemotePublicKey`:
+   (key type, needs cargo feature `rsa`). tools/gen_c18_sites.py extracts the same table from the
+   match arms of src/crypto/mod.rs (Proofs: admission_table_match). Everything not listed —
+   Secp256k1, ECDSA, numbers outside the enum — is UnknownKeyType. *)
+Definition remote_admission : list (N * bool) := [(KT_ED25519, false); (KT_RSA, true)].
+(* `impl TryFrom<keys_proto::PublicKey> for PublicKey` (the local key type): Ed25519 only *)
+Definition local_admission : list (N * bool) := [(KT_ED25519, false)].
+
+Fixpoint admitted_type (tbl : list (N * bool)) (rsa_feature : bool) (t : N) : bool :=
+  match tbl with
+  | [] => false
+  | (t', needs_rsa) :: r =>
+      if (t' =? t) && (negb needs_rsa || rsa_feature) then true else admitted_type r rsa_feature t
+  end.
+
+(* what stays outside the model: does ed25519_dalek::VerifyingKey::from_bytes accept these 32
+   bytes (point decompression), does rsa::PublicKey::try_decode_x509 accept this DER and which
+   PKCS#1 key does it hold *)
+Definition curve_oracle := list N -> bool.
+Definition x509_oracle := list N -> option (list N).
+
+(* ed25519::PublicKey::try_from_bytes *)
+Definition ed25519_try_from_bytes (on_curve : curve_oracle) (d : list N) : option (list N) :=
+  if (len d =? 32) && on_curve d then Some d else None.
+
+(* TryFrom<keys_proto::PublicKey> for RemotePublicKey *)
+Definition admit_key (on_curve : curve_oracle) (x509 : x509_oracle) (rsa_feature : bool) (m : keymsg)
+  : option key :=
+  if admitted_type remote_admission rsa_feature (k_type m) then
+    if k_type m =? KT_ED25519 then
+      match ed25519_try_from_bytes on_curve (k_data m) with Some k => Some (KEd k) | None => None end
+    else
+      match x509 (k_data m) with Some pk => Some (KRsa pk) | None => None end
+  else None.
+
+(* RemotePublicKey::from_protobuf_encoding *)
+Definition decode_pubkey (on_curve : curve_oracle) (x509 : x509_oracle) (rsa_feature : bool)
+  : decoder :=
+  fun b => match decode_keymsg b with Some m => admit_key on_curve x509 rsa_feature m | None => None end.
+
+(* ---------- the error variant of the text parser ---------- *)
+(* PeerId::from_str: 1 = ParseError::B58 (bs58 refused the text), 2 = ParseError::MultiHash *)
+Definition of_text_err (t : list N) : N :=
+  match b58_decode t with
+  | None => 1
+  | Some b => match of_bytes b with Some _ => 0 | None => 2 end
+  end.
+
+(* ---------- a stricter parser (NOT what the code does; see Properties, "the repair that was not made") ---------- *)
+Definition of_bytes_strict (b : list N) : option pid :=
+  match of_bytes b with
+  | Some p => if list_eqb N.eqb (to_bytes p) b then Some p else None
+  | None => None
+  end.
+
+(* ---------- the parse sites ---------- *)
+(* The places of the Rust source where a peer id is made from received bytes, text or a
+   multiaddress component (tools/gen_c18_sites.py, second table; Proofs.parse_sites_match).
+   The `multihash` field is private to src/peer_id.rs and the only struct literals are the
+   kind-1 sites of `derivation_sites`, so every PeerId outside that file comes out of one of the
+   gates below; each line names the model function that stands for the site. *)
+Definition parse_sites : list (N * N * N) :=
+  [(0, 2, 10);   (* peer_id.rs  from_bytes -> from_multihash                          [of_bytes = mh_parse + admits] *)
+   (0, 2, 13);   (*             from_bytes: Multihash::from_bytes                     [mh_parse] *)
+   (0, 4, 10);   (* peer_id.rs  try_from_multiaddr -> from_multihash                  [of_component / of_addr_text] *)
+   (0, 8, 9);    (* peer_id.rs  TryFrom<Vec<u8>> -> from_bytes                        [of_bytes] *)
+   (0, 8, 10);   (*             TryFrom<Multihash> -> from_multihash                  [admits] *)
+   (0, 14, 9);   (* peer_id.rs  Deserialize visit_bytes -> from_bytes                 [de_bin] *)
+   (0, 15, 12);  (*             Deserialize visit_str -> from_str                     [de_hr] *)
+   (0, 16, 9);   (* peer_id.rs  from_str -> from_bytes                                [of_text] *)
+   (0, 16, 14);  (*             from_str: bs58::decode                                [b58_decode] *)
+   (0, 21, 14);  (* peer_id.rs  to_base58: bs58::encode                               [b58_encode] *)
+   (7, 20, 11);  (* transport/manager  dial_address -> try_from_multiaddr             [of_component] *)
+   (7, 22, 10);  (* transport/manager  update_address_on_dial_failure: /p2p -> from_multihash   [admits] *)
+   (7, 23, 10);  (* transport/manager  next (DialFailure with address): /p2p -> from_multihash  [admits] *)
+   (9, 8, 9);    (* kademlia/types.rs  KademliaPeer::try_from(&schema::Peer) -> from_bytes(id)  [of_bytes] *)
+   (10, 18, 9);  (* kademlia/message.rs record_from_schema -> from_bytes(publisher)   [of_bytes] *)
+   (11, 24, 10); (* transport/common/listener.rs multiaddr_to_socket_address: /p2p -> from_multihash [admits] *)
+   (12, 25, 10); (* transport/websocket multiaddr_into_url: /p2p -> from_multihash    [admits] *)
+   (13, 19, 10); (* transport/quic/listener.rs get_socket_address: /p2p -> from_multihash [admits] *)
+   (14, 26, 11)]. (* addresses.rs ensure_local_peer -> try_from_multiaddr              [of_component] *)
+
+(* ---------- derivation with SHA-256 itself ---------- *)
+(* `derive sha256` written so that the extracted code does not compute a digest it does not use
+   (KeyProofs.derive_fast_eq) *)
+Definition derive_fast (enc : list N) : pid :=
+  if len enc <=? MAX_INLINE then mkPid IDENTITY enc else mkPid SHA256 (sha256 enc).
